@@ -145,7 +145,95 @@ def token_kinds():
     return emitted, engine, graph
 
 
+MUTATORS = {"append", "extend", "insert", "remove", "pop", "clear", "update", "setdefault", "sort", "reverse", "add", "discard", "popitem"}
+STORY_PARAMS = {"passage", "choice", "token", "directive", "loop", "conditional", "branch", "cmd", "commands",
+                "content_tokens", "content", "tokens", "story_data", "choices", "section_tokens", "block_content"}
+
+
+def _root_name(e):
+    """the variable an expression is an alias INTO: x, x.a, x[k], x.get(k) -> x; constructors are fresh"""
+    while True:
+        if isinstance(e, ast.Name):
+            return e.id
+        if isinstance(e, ast.Attribute):
+            if isinstance(e.value, ast.Name) and e.value.id == "self":
+                return "self." + e.attr
+            e = e.value
+        elif isinstance(e, ast.Subscript):
+            e = e.value
+        elif isinstance(e, ast.Call) and isinstance(e.func, ast.Attribute) and e.func.attr == "get":
+            e = e.func.value
+        else:
+            return None
+
+
+def story_writes(rel):
+    """mutation sites in an engine file whose target is (an alias into) the compiled story"""
+    tree = ast.parse(open(os.path.join(REPO, rel)).read())
+    out = []
+    for func in [n for n in ast.walk(tree) if isinstance(n, ast.FunctionDef)]:
+        tainted = {"self.story", "self.passages"} | {a.arg for a in func.args.args if a.arg in STORY_PARAMS}
+        if func.name in ("__init__",):
+            tainted.discard("story_data")      # the constructor only stores it
+            tainted.add("story_data")
+        changed = True
+        while changed:
+            changed = False
+            for n in ast.walk(func):
+                tgt, val = None, None
+                if isinstance(n, ast.Assign) and len(n.targets) == 1 and isinstance(n.targets[0], ast.Name):
+                    tgt, val = n.targets[0].id, n.value
+                elif isinstance(n, ast.For) and isinstance(n.target, ast.Name):
+                    tgt, val = n.target.id, n.iter
+                    if isinstance(val, ast.Call) and isinstance(val.func, ast.Name) and val.func.id == "enumerate":
+                        val = None
+                elif isinstance(n, ast.For) and isinstance(n.target, ast.Tuple) and isinstance(n.iter, ast.Call) \
+                        and isinstance(n.iter.func, ast.Name) and n.iter.func.id == "enumerate" and n.iter.args:
+                    last = n.target.elts[-1]
+                    if isinstance(last, ast.Name):
+                        tgt, val = last.id, n.iter.args[0]
+                if tgt and val is not None:
+                    r = _root_name(val)
+                    if r in tainted and tgt not in tainted:
+                        tainted.add(tgt)
+                        changed = True
+        for n in ast.walk(func):
+            site = None
+            if isinstance(n, (ast.Assign, ast.AugAssign)):
+                targets = n.targets if isinstance(n, ast.Assign) else [n.target]
+                for t in targets:
+                    if isinstance(t, (ast.Subscript, ast.Attribute)) and not (isinstance(t, ast.Attribute) and isinstance(t.value, ast.Name) and t.value.id == "self"):
+                        r = _root_name(t)
+                        if r in tainted:
+                            site = (r, ast.unparse(t))
+                    elif isinstance(n, ast.AugAssign) and isinstance(t, ast.Name) and t.id in tainted:
+                        site = (t.id, ast.unparse(n))
+            elif isinstance(n, ast.Delete):
+                for t in n.targets:
+                    r = _root_name(t)
+                    if isinstance(t, ast.Subscript) and r in tainted:
+                        site = (r, ast.unparse(t))
+            elif isinstance(n, ast.Call) and isinstance(n.func, ast.Attribute) and n.func.attr in MUTATORS:
+                r = _root_name(n.func.value)
+                if r in tainted:
+                    site = (r, ast.unparse(n)[:60])
+            if site:
+                out.append((rel, n.lineno, func.name, site[0], site[1]))
+    return sorted(set(out))
+
+
 def regenerate():
+    sw = story_writes("bardic/runtime/engine.py") + story_writes("bardic/templates/browser/engine_browser.py")
+    def q2(x):
+        return '"' + str(x).replace("\\", "/").replace('"', "'").replace("\n", " ") + '"'
+    _write("StoryWrites.lean",
+           "/-! GENERATED by harness/extract.py from /repo on every run — do not edit. -/\n"
+           "namespace Bardic.Extracted\n\n"
+           "/-- mutation sites of the engines whose target is an alias into the compiled story:\n"
+           "    (file, line, function, aliased name, expression) -/\n"
+           "def storyWrites : List (String × Nat × String × String × String) := [" +
+           (",\n".join("\n  (" + ", ".join([q2(a), str(b), q2(c), q2(d), q2(e)]) + ")" for a, b, c, d, e in sw)) + "]\n\n"
+           "end Bardic.Extracted\n")
     emitted, engine, graph = token_kinds()
     def ql(xs):
         return "[" + ", ".join('"' + x + '"' for x in sorted(xs)) + "]"
